@@ -263,9 +263,9 @@ class C01(Prop):
             v = rnd.choice(gamma.HOSTILE) if rnd.random() < 0.7 else gamma.rand_text(rnd, 12)
             if rnd.random() < 0.15:
                 v = rnd.choice([True, 5, 2.5, ""])
-            elif rnd.random() < 0.06:
+            elif rnd.random() < 0.03:
                 # long values (an implementation may take another path for long strings)
-                v = rnd.choice(gamma.LONG_HOSTILE + ["q" * 300 + '"' + "r" * 10 + "'<&>\n", "w" * 255 + '"'])
+                v = rnd.choice(gamma.LONG_HOSTILE[:2] + ["q" * 300 + '"' + "r" * 10 + "'<&>\n", "w" * 255 + '"'])
             attrs[rnd.choice(ATTR_NAMES)] = v
         exp = {"k": "tag", "name": name, "attrs": [{"n": a, "v": cps("" if v is True else str(v))} for a, v in attrs.items()],
                "c": exps, "t": []}
@@ -273,7 +273,9 @@ class C01(Prop):
 
     def gens_from_export(self, lines, tier, rnd):
         gens = []
-        reps = 2 if tier == "quick" else 4
+        # (thorough: 3 concretisations per enumerated shape; with 4 and the second-use variants the records grew to 1.3 GB
+        #  and their validation by TLC no longer finished within its time limit)
+        reps = 2 if tier == "quick" else 3
         for n, ln in enumerate(lines):
             for r in range(reps):
                 # (thorough tier: one of the four repetitions of a shape also goes through a second-use variant)
